@@ -16,14 +16,14 @@ NOTE = ("Static analysis of nightly-rustc MIR (-Zmir-opt-level=0, --features cap
 
 CLAIMS = {
     "C01": "Decides on all CFG paths of the emulated walk: '..' is clamped at the root (pop() failure -> restart from the root clone, no open), absolute link targets restart from the root clone with the lexical position reset, every queue growth is behind the link-budget test whose exhaustion yields ELOOP (termination ranking), '' is opened as '.', no_follow_trailing and NO_SYMLINKS are honoured in both backends, kernel lookups carry RESOLVE_IN_ROOT|NO_MAGICLINKS; budget constant compared with the kernel's. every component other than '..' at the root is opened (a non-directory followed by '.', '..' or '/' is noticed); the link body spliced into the walk is the readlink result unmodified and no component is dropped on the way to the queue; the emulated one-shot open takes its trailing-symlink mode from O_NOFOLLOW alone and returns the bare lookup handle only for a symlink asked for with O_PATH. NOT decided: equality of outcomes with the kernel for concrete trees.",
-    "C02": "Decides that the verification protocol that makes the emulated walk schedule-independent is present on every CFG path: check_current after every '..' open before the fd is used, before every Complete result, fail-closed comparisons against /proc/thread-self/fd via the checked helper, fd-relative single-component O_PATH|O_NOFOLLOW steps, link bodies read from the opened fd, bounded EAGAIN retry ending in SafetyViolation, no partial result after a safety violation. Kernel lookups are scoped (RESOLVE_IN_ROOT|NO_MAGICLINKS surely set at every openat2 of the resolver). NOT decided: sufficiency of the protocol against every schedule.",
-    "C03": "Decides per mutating call site (mkdirat, mknodat, symlinkat, linkat, unlinkat, renameat2, O_CREAT open) and per descend open: dirfd originates from in-root resolution or a previous descend open; name is a single component by construction; descend opens can never be handed '.'/'..' (proof accepted in the function, in every caller, or in the producer of the name); the set of mutating functions is closed. The resolver-containment rules (verification protocol, fail-closed comparison, scoped kernel lookups) and byte-fidelity of every path handed to the kernel are obligations here too. Holds on every CFG path, hence under every fault placement. NOT decided: effects observed on a real filesystem under attacker schedules.",
-    "C04": "Thin structural claim: flag bits of the one-shot open reach both backends' final opens unchanged except for O_CLOEXEC/O_NOCTTY/O_NOFOLLOW; both backends force the same descriptor flags; creation-flag validation and argument checks precede the backend dispatch; the backend field is read only in the dispatch functions; every errno the emulation synthesises is tabulated against the kernel's; interior-NUL and empty-path handling of the two backends are compared. Shape of the emulated one-shot open (mode from O_NOFOLLOW alone, bare handle only for symlink+O_PATH, otherwise reopen with the caller's flags); no dropping adaptor between the component splitter and the walk's queue; the symlink stack's writer and reader agree on which components are no-ops. NOT decided: outcome equality for concrete trees, partial-lookup results, symlink-stack book-keeping.",
-    "C05": "Decided per call site: OS entries only in src/syscalls.rs plus a named exemption table; flag-bit abstract interpretation proves O_CLOEXEC|O_NOCTTY (open), O_NOFOLLOW (wrapper), O_CLOEXEC + O_NOCTTY-or-O_PATH (openat2), *_CLOEXEC (fsopen/fsmount/open_tree), RESOLVE masks, AT_SYMLINK_NOFOLLOW|AT_NO_AUTOMOUNT (stat); provenance classification proves every dirfd/path argument of the wrapper call sites is (fd-relative single component | empty path on an fd | confined openat2 | listed bootstrap/probe exemption); the only followed link is the open_follow sink.",
-    "C06": "Decides that every descriptor the procfs layer returns or walks through has passed the mount-identity checks on all paths: lookup results in ProcfsHandle::open/open_base, each step and the final reopen of the emulated procfs walk, the magic-link dentry in open_follow, and every constructed handle (fstype + root inode); the comparisons fail closed (Option<u64> compared whole, EXDEV); constructor preference order. NOT decided: which object the kernel returns under a given mount table; racing mounts.",
-    "C07": "Decides: the emulated procfs walk refuses '..' (EXDEV) and absolute link bodies (ELOOP) before any open/queue growth, honours NO_SYMLINKS and the link budget; ProcfsHandle::open forces O_NOFOLLOW; open_follow follows exactly the split-off last component; every flow of caller-supplied open flags to an open sink provably lacks O_CREAT, O_EXCL and O_TMPFILE (flag-bit analysis with branch refinement; sibling validators agree). NOT decided: outcome equality of the two procfs resolvers.",
-    "C08": "Decides boundedness: every cycle of the crate call graph has a recognised termination witness (descending fd recursion, type-structural, data-structural, or a flag that provably flips) and no procfs-handle constructor sits in a loop or unwitnessed cycle; the masked-handle retry is taken only for ENOENT on a masked handle and returns the original error if no new handle can be made. The call graph includes call-backs through conversions/formatting/drop, so 'describing an error fails the same way again' cycles are seen; context-insensitive cycles are accepted only with an infeasibility witness. No errno is fabricated on the procfs lookup path (retry result returned as produced). NOT decided: truthfulness of ENOENT on each kind of /proc.",
-    "C09": "Decides: reopen goes only through thread-self/fd/<n> of the library's procfs handle, built from the descriptor number alone; symlink handles are refused with ELOOP before the open; O_NOFOLLOW is stripped; all descriptor-validity predicates put 0 on the valid side; forced O_CLOEXEC|O_NOCTTY, creation-flag refusal and the over-mount check of the link hold at the final open. The readlink probe of open_follow selects the no-follow open only for ENOENT, follows for Ok and ENAMETOOLONG, and returns every other failure. NOT decided: the kernel's magic-link semantics.",
+    "C02": "Decides that the verification protocol that makes the emulated walk schedule-independent is present on every CFG path: check_current after every '..' open before the fd is used, before every Complete result, fail-closed comparisons against /proc/thread-self/fd via the checked helper, fd-relative single-component O_PATH|O_NOFOLLOW steps, link bodies read from the opened fd, bounded EAGAIN retry ending in SafetyViolation, no partial result after a safety violation. Kernel lookups are scoped (RESOLVE_IN_ROOT|NO_MAGICLINKS surely set at every openat2 of the resolver). The path check_current compares is the kernel's answer unedited (as_unsafe_path -> ProcfsHandle::readlink -> readlinkat); the reopen of the one-shot open is by descriptor under thread-self. NOT decided: sufficiency of the protocol against every schedule.",
+    "C03": "Decides per mutating call site (mkdirat, mknodat, symlinkat, linkat, unlinkat, renameat2, O_CREAT open) and per descend open: dirfd originates from in-root resolution or a previous descend open; name is a single component by construction; descend opens can never be handed '.'/'..' (proof accepted in the function, in every caller, or in the producer of the name); the set of mutating functions is closed. The resolver-containment rules (verification protocol, fail-closed comparison, scoped kernel lookups) and byte-fidelity of every path handed to the kernel are obligations here too. A creating open that can carry O_PATH (the kernel then ignores O_CREAT) can never be handed '..'; reopen of resolved handles is by descriptor under thread-self; the no-follow wrapper forces O_NOFOLLOW for every flag combination. Holds on every CFG path, hence under every fault placement. NOT decided: effects observed on a real filesystem under attacker schedules.",
+    "C04": "Thin structural claim: flag bits of the one-shot open reach both backends' final opens unchanged except for O_CLOEXEC/O_NOCTTY/O_NOFOLLOW; both backends force the same descriptor flags; creation-flag validation and argument checks precede the backend dispatch; the backend field is read only in the dispatch functions; every errno the emulation synthesises is tabulated against the kernel's; interior-NUL and empty-path handling of the two backends are compared. Shape of the emulated one-shot open (mode from O_NOFOLLOW alone, bare handle only for symlink+O_PATH, otherwise reopen with the caller's flags); no dropping adaptor between the component splitter and the walk's queue; the symlink stack's writer and reader agree on which components are no-ops. No errno re-labelling of a failed system call; the backend probe answers 'kernel' only if the probing call succeeded; link budget and protected-symlinks table agree with the kernel's (budget: known finding F7). NOT decided: outcome equality for concrete trees, partial-lookup results, symlink-stack book-keeping.",
+    "C05": "Decided per call site: OS entries only in src/syscalls.rs plus a named exemption table; flag-bit abstract interpretation proves O_CLOEXEC|O_NOCTTY (open), O_NOFOLLOW (wrapper), O_CLOEXEC + O_NOCTTY-or-O_PATH (openat2), *_CLOEXEC (fsopen/fsmount/open_tree), RESOLVE masks, AT_SYMLINK_NOFOLLOW|AT_NO_AUTOMOUNT (stat); provenance classification proves every dirfd/path argument of the wrapper call sites is (fd-relative single component | empty path on an fd | confined openat2 | listed bootstrap/probe exemption); the only followed link is the open_follow sink; the C API's descriptor gate refuses AT_FDCWD (capi).",
+    "C06": "Decides that every descriptor the procfs layer returns or walks through has passed the mount-identity checks on all paths: lookup results in ProcfsHandle::open/open_base, each step and the final reopen of the emulated procfs walk, the magic-link dentry in open_follow, and every constructed handle (fstype + root inode); the comparisons fail closed (Option<u64> compared whole, EXDEV); constructor preference order. fetch_mnt_id yields Some(id) for every kernel generation that reports one (and None otherwise), and every open_tree carries OPEN_TREE_CLONE on all call paths. NOT decided: which object the kernel returns under a given mount table; racing mounts.",
+    "C07": "Decides: the emulated procfs walk refuses '..' (EXDEV) and absolute link bodies (ELOOP) before any open/queue growth, honours NO_SYMLINKS and the link budget; ProcfsHandle::open forces O_NOFOLLOW; open_follow follows exactly the split-off last component; every flow of caller-supplied open flags to an open sink provably lacks O_CREAT, O_EXCL and O_TMPFILE (flag-bit analysis with branch refinement; sibling validators agree). A failing system call of the emulated walk is reported as that failure (no errno re-labelling on failure-only paths or in error-mapping closures). NOT decided: outcome equality of the two procfs resolvers.",
+    "C08": "Decides boundedness: every cycle of the crate call graph has a recognised termination witness (descending fd recursion, type-structural, data-structural, or a flag that provably flips) and no procfs-handle constructor sits in a loop or unwitnessed cycle; the masked-handle retry is taken only for ENOENT on a masked handle and returns the original error if no new handle can be made. The call graph includes call-backs through conversions/formatting/drop, so 'describing an error fails the same way again' cycles are seen; context-insensitive cycles are accepted only with an infeasibility witness. No errno is fabricated on the procfs lookup path (retry result returned as produced). The handle the retry runs on is created without any masking mount option; the openat2 probe answers 'supported' only if the probing call succeeded. NOT decided: truthfulness of ENOENT on each kind of /proc.",
+    "C09": "Decides: reopen goes only through thread-self/fd/<n> of the library's procfs handle, built from the descriptor number alone; symlink handles are refused with ELOOP before the open; O_NOFOLLOW is stripped; all descriptor-validity predicates put 0 on the valid side; forced O_CLOEXEC|O_NOCTTY, creation-flag refusal and the over-mount check of the link hold at the final open. The readlink probe of open_follow selects the no-follow open only for ENOENT, follows for Ok and ENAMETOOLONG, and returns every other failure. Every file returned by reopen comes from the by-descriptor reopen (never a duplicate of the handle); the probe (ProcfsHandle::readlink) fabricates no errno and returns the link body unedited. NOT decided: the kernel's magic-link semantics.",
     "C10": "Every `?`/Err edge is a CFG edge, so the rules hold for every fault placement: no unwrap/expect/panic!/unreachable! whose reachability or operand depends on a system-call result; every Result from the syscall layer is propagated or matched except a reasoned table; every loop in syscall-reaching code has a termination witness; fetch_mnt_id degrades only for ENOSYS/EINVAL; lazy statics do not re-enter themselves. Every openat2 call site of the resolvers retries EAGAIN inside a constant-bounded loop whose exhaustion is a SafetyViolation; no call-graph cycle (call-backs included) lacks a termination witness; a closed table of special-cased errnos per function. Dependencies are covered by an external-callee table.",
     "C11": "Decides the ownership structure: escape hatches from RAII fd ownership (into_raw_fd, from_raw_fd, forget, ManuallyDrop, Box::leak/into_raw, borrow_raw, close/dup2) occur only at their audited sites with the audited provenance; the only fd-owning static is the global procfs handle; every fd-creating sink is close-on-exec; compile-fail witnesses show borrowed handles cannot outlive or duplicate ownership. the success test on the raw return value of a descriptor-returning system call puts 0 on the owning side; NOT decided: run-time descriptor counts.",
     "C12": "Decides: mode validation (nothing outside 0o1777) reaches the lookup and every mkdirat; only EEXIST is tolerated from mkdirat; the step open is O_DIRECTORY|O_NOFOLLOW on the same (dirfd, name); '.', '..', '' never reach the creation loop and '..' gives ENOENT; the returned handle is the last step open; partial lookups become creatable remainders only for ENOENT. a refusal synthesised inside the creation loop depends only on the component name, the errno of its own mkdirat or the step open (necessary for convergence with concurrent callers). NOT decided: whole-tree frame condition, convergence of concurrent callers.",
